@@ -127,7 +127,7 @@ theorem switch_pm (cx : Cx) (fuel : Nat) (env : Src.Env) (he : EnvOK cx env) (hd
   simp only [pure_ok, Prod.mk.injEq] at h8
   obtain ⟨rfl, rfl⟩ := h8
   have hwait' : rr.waiting = [] := by simpa using hwait
-  have hS := hsem hwait' False (fun _ hf => hf)
+  have hS := hsem hwait' False (fun _ hf => hf.elim)
   simp only [wSrc] at hS
   have hstk : SameStk s s' := ((((sameStk_tickedLbl s 1).trans (sameStk_tickedLbl _ 1)).trans e3).trans e5).trans (e6.trans e7)
   have hL5 : s5.loops = s.loops := (((((sameStk_tickedLbl s 1).trans (sameStk_tickedLbl _ 1)).trans e3).trans e5).trans e6).1
